@@ -9,9 +9,17 @@
 #include <sstream>
 #include <string>
 #include <vector>
+#include <unistd.h>
 
 namespace vh
 {
+// per-case watchdog: a case that runs longer than `seconds` kills the process with SIGALRM, which the
+// Python side reports as the observation `abort:timeout` for exactly that case (a hang is an observation)
+inline void case_alarm(unsigned seconds)
+{
+    alarm(seconds);
+}
+
 inline std::vector<std::string> split(const std::string& s, char sep, bool keep_empty = false)
 {
     std::vector<std::string> out;
